@@ -1,6 +1,6 @@
 (* Device servo vs host servo (property C04, unit C04_servo): proofs. *)
 From Coq Require Import ZArith QArith Qround Qabs Lia Lqa List Bool.
-From RV Require Import Base.Wire Base.NumM Gen.C19Motor Host.Servo Device.DMotor Device.DServo.
+From RV Require Import Base.Wire Base.NumM Gen.C19Motor Host.Servo Device.DMotor Device.DServo Proofs.NumMP.
 Import ListNotations.
 Open Scope Q_scope.
 
@@ -346,7 +346,7 @@ Proof.
   set (maxa := dflt servo_default_max_angle (a_max_a a)) in *.
   set (minp := dflt servo_default_min_pulse (a_min_p a)) in *.
   set (maxp := dflt servo_default_max_pulse (a_max_p a)) in *.
-  unfold py_ge, py_le in C.
+  rewrite !py_not_lt_ge in C. unfold py_ge, py_le in C.
   rewrite (snum_ok_qof mina), (snum_ok_qof maxa), (snum_ok_qof minp), (snum_ok_qof maxp) in C by assumption.
   destruct (Qleb (qval maxa) (qval mina)) eqn:E1; [discriminate|].
   destruct (Qleb (qval maxp) (qval minp)) eqn:E2; [discriminate|].
